@@ -11,6 +11,7 @@
 -/
 import OrbProofs.C01Lemmas
 import OrbProofs.C01Scanner
+import OrbProofs.C01Order
 
 namespace Orb.WKB
 
@@ -128,6 +129,24 @@ theorem ewkb_scanner_reused_row (bnd : BoundFn) (d : Dest) (σ : ScanState) (o :
 theorem wkb_scanner_history_free (bnd : BoundFn) (d : Dest) (σ σ' : ScanState) (x : ScanIn) :
     (wkbScanStep bnd d σ x).map ScanState.observe = (wkbScanStep bnd d σ' x).map ScanState.observe :=
   wkbScanStep_history_free' bnd d σ σ' x
+
+/-! ### the byte-order VALUE given to the encoder (`Orb.WKBOrder`)
+
+  `encodeBO isLittleEndianValue payload` is `Marshal(g, srid, order)` for a `binary.ByteOrder` value that is
+  (or is not) `binary.LittleEndian` and writes integers in order `payload`; the mark in front of every
+  geometry is `codeMark …`, decided by the code by probing the value (`isLittleEndian`). -/
+
+/-- Mark and payload in the same order: the encoder all the theorems above are about. -/
+theorem encGeomM_same (o : Order) (srid : Nat) (g : G) : encGeomM o o srid g = encGeom o srid g :=
+  encGeomM_same' o srid g
+
+/-- EVERY byte-order value round-trips (`binary.LittleEndian`, `binary.BigEndian`, `binary.NativeEndian`, user
+    types): since fix C01-3 the mark is decided by probing the value, so it is the order of the payload. -/
+theorem byte_order_roundtrip (isLittleEndianValue : Bool) (o : Order) (srid : Nat) (g : G) (hw : WF32 g)
+    (hs : srid < 2^32) (hd : collDepth g ≤ Generated.Params.wkb_MaxCollectionDepth) :
+    unmarshal (encodeBO isLittleEndianValue o srid (.val g)) = .ok (canon g, srid) ∧
+    decode (encodeBO isLittleEndianValue o srid (.val g)) = .ok (canon g, srid) :=
+  byte_order_roundtrip' isLittleEndianValue o srid g hw hs hd
 
 /-- Non-vacuity: a concrete nested value meets the hypotheses, and its encoding is what Go writes
     (`01 07000020 E6100000 01000000 | 01 01000000 <x> <y>` for SRID 4326). -/
